@@ -1,5 +1,4 @@
 /- Umbrella of the canonical-text tie (tools/canon.py): one module per item under Lemmas/Canon. -/
-import Qvnt.Lemmas.Canon.MacroNew
 import Qvnt.Lemmas.Canon.ParseContext
 import Qvnt.Lemmas.Canon.ParseEvalExtended
 import Qvnt.Lemmas.Canon.SymInit
